@@ -21,7 +21,10 @@ import re
 
 import common as C
 
-CLS = {0: None, 1: "json_meta", 2: "multi_at", 3: "login_tokens", 4: "sasl_reply_injection"}
+DOMAIN = "__outside_utf8_domain__"
+# class codes computed in Coq (Spec/AuthObs.v): 3 = finding class login_tokens; 9 = outside the stated
+# domain (address or password not valid UTF-8: encoding/json substitutes U+FFFD)
+CLS = {0: None, 3: "login_tokens", 9: DOMAIN}
 
 DOMAINS = ["example.com", "d.test", "a-b.org"]
 ODD_DOMAINS = ["x", "lo@cal", 'q"d', "b\\s", ""]
@@ -206,7 +209,7 @@ def gen_sasl(rng, n):
             u = gen_user(rng).replace("\x00", "\x02")
             p = gen_pass(rng).replace("\x00", "\x02")
             if rng.random() < 0.08:
-                u = rng.choice(["x\nOK\t%s\tuser=admin" % ident, "a\tuser=root", "evil\n", "a\tb"])
+                u = rng.choice(["x\nOK\t%s\tuser=admin" % ident, "a\tuser=root", "evil\n", "a\tb", "a\rb", "cr\r"])
             mech = rng.choice(["PLAIN"] * 6 + ["plain", "Plain"])
             params = rng.choice([["service=smtp"], [], ["service=smtp", "rip=1.2.3.4", "secured"], ["nologin"]])
             raw = "\t".join(["AUTH", ident, mech] + params + ["resp=" + b64(authzid + "\x00" + u + "\x00" + p)])
@@ -578,10 +581,17 @@ def run(chk):
 
     # ---- decisions
     nd = 0
+    n_domain = 0
     reported = 0   # at most MAX_REPORT fresh violations are written out (the first ones, in case order)
     pending = []   # model != impl, spec holds, outside every finding class
+    bad.sort(key=lambda b: 0 if "corpus" in b[0] else 1)   # regression witnesses are reported first
     for (c, sub, m_ok, s_ok, cls) in bad:
         nd += 1
+        if cls == DOMAIN:
+            n_domain += 1
+            if n_domain <= 3:
+                chk.notes.append("domain limit (address or password is not valid UTF-8; encoding/json substitutes U+FFFD): " + describe(c, sub)[:160])
+            continue
         if not s_ok:
             what = "property violated by the implementation: " + describe(c, sub)
             if cls is None and non_ascii_edge(c):
@@ -608,10 +618,13 @@ def run(chk):
         chk.broken_obligation("correspondence suite sasl no longer checks: %d of %d SASL cases did not complete (service hangs?): %s"
                               % (len(SKIPPED), chk.cov["by_suite"]["sasl"], SKIPPED[0]))
     chk.notes.extend(SKIPPED[:5])
+    chk.cov["outside_utf8_domain"] = n_domain
     for c in corpus:
         hit = any(b[0] is c and not b[3] for b in bad)
-        if not hit:
+        if not hit and c.get("expect_class") in chk.findings:
             chk.notes.append("corpus witness %s no longer violates the property" % c.get("corpus"))
+    chk.cov["regression_witnesses_passing"] = sorted(c.get("corpus") for c in corpus
+                                                     if c.get("expect_class") not in chk.findings and not any(b[0] is c for b in bad))
     if pending:
         # neighbourhood search on the implementation for a spec-violating input
         neigh = []
@@ -623,7 +636,11 @@ def run(chk):
             if b2 is None:
                 return
             for (c2, sub2, m2, s2, cls2) in b2:
-                if not s2 and cls2 is None and not non_ascii_edge(c2):
+                if not s2 and cls2 is None and not non_ascii_edge(c2):  # (DOMAIN rows have cls2 == DOMAIN)
+                    found = True
+                    reported += 1
+                    if reported > MAX_REPORT:
+                        continue
                     chk.violation("property violated by the implementation (found near a model/implementation disagreement): " + describe(c2, sub2), payload_of(c2, sub2))
                     found = True
         if not found:
